@@ -229,7 +229,8 @@ fn expand_args_in_tokens(tokens: &mut types::Tokens, args: &[String]) {
     let mut buff = Vec::new();
 
     for (sep, token) in tokens.iter() {
-        if sep == "`" || sep == "'" || !is_args_in_token(token) {
+        // (a backquoted command is expanded like a `$(..)` one)
+        if sep == "'" || !is_args_in_token(token) {
             idx += 1;
             continue;
         }
